@@ -233,6 +233,42 @@ class ConsumerPowerFormula(FormulaGenerator[Power]):
                     nones_are_zeros=component.category != ComponentCategory.METER,
                 )
 
+        # Consumer meters can have non-consumer components (battery, CHP, PV or
+        # EV charger chains) below them, which need to be subtracted.
+        non_consumer_components: set[Component] = set()
+        for consumer in consumer_components:
+            for successor in component_graph.successors(consumer.component_id):
+                non_consumer_components = non_consumer_components.union(
+                    component_graph.dfs(
+                        successor,
+                        set(),
+                        lambda component: component_graph.is_battery_chain(component)
+                        or component_graph.is_chp_chain(component)
+                        or component_graph.is_pv_chain(component)
+                        or component_graph.is_ev_charger_chain(component),
+                    )
+                )
+
+        if self._config.allow_fallback:
+            for primary_component, fallback_formula in self._get_fallback_formulas(
+                non_consumer_components
+            ).items():
+                builder.push_oper("-")
+                builder.push_component_metric(
+                    primary_component.component_id,
+                    nones_are_zeros=(
+                        primary_component.category != ComponentCategory.METER
+                    ),
+                    fallback=fallback_formula,
+                )
+        else:
+            for component in non_consumer_components:
+                builder.push_oper("-")
+                builder.push_component_metric(
+                    component.component_id,
+                    nones_are_zeros=component.category != ComponentCategory.METER,
+                )
+
         return builder.build()
 
     def _get_fallback_formulas(
